@@ -77,7 +77,7 @@ def gen_chain(rng, shape, depth):
 
 
 def generate(rng, tier):
-    n = 700 if tier == "quick" else 12000
+    n = 700 if tier == "quick" else 100000
     for _ in range(n):
         nd = rng.choice([1, 2, 2, 3, 3, 4])
         shape = [rng.choice([3, 4, 5, 6]) for _ in range(nd)]
